@@ -1,6 +1,6 @@
 """Texts for MANIFEST.json, per property."""
 
-HOOK_COMMITS = []
+HOOK_COMMITS = ["e4221b4", "d0c69f8"]
 NOT_APPLICABLE = {}
 
 TEXT = {
@@ -8,5 +8,15 @@ TEXT = {
         "technique": "runtime monitor: exhaustive/strided sweep through the real codec against an independent doc/int.md reference codec; model-based packer sequences into canary-guarded buffers; Miri on a sample",
         "level_text": "Every one of the 2^32 integers (thorough) is encoded and decoded by the real packer and compared with an independent codec written from doc/int.md; all byte strings up to 3 bytes and boundary-pattern 4-6 byte strings are decoded and compared (value, consumed length, error iff truncated, warning iff non-canonical); random packer sequences are checked against a byte-string model in every capacity. The integer and short-string sub-spaces are enumerated completely; the packer sequences are sampled.",
         "level_note": "Trusts the harness's reading of doc/int.md (refmodel/varint.rs) and the canary/pointer-range checks; packer op sequences are PRNG samples, not enumerated.",
+    },
+    "C01": {
+        "technique": "runtime monitor: online exactly-once/in-order delivery oracle over recorded send/deliver events of two real endpoints on a simulated lossy, duplicating, reordering network with virtual time; Miri on short histories",
+        "level_text": "Thousands of generated histories per run (three protocol variants, per-history fault personalities, bursts, boundary chunk sizes, sequence wrap-around) are executed on the real Connection code; at the return of every feed the delivered vital chunks must be exactly the next submissions of the peer, non-vital and connless deliveries must have been submitted, and ready is checked against the acceptor's emitted answer (classified by the harness's own header parser). The explored dimension is the fault/schedule pattern; nothing is enumerated exhaustively.",
+        "level_note": "Assumes the quantifier's preconditions, which the harness enforces through the verif hooks (unacked < 500, datagrams dropped after 500 further sequence numbers). Datagram corruption is out of scope here. Only generated interleavings are covered.",
+    },
+    "C04": {
+        "technique": "runtime monitor: every datagram handed to Callback::send is re-parsed by the library's own reader (zero warnings, chunk count and contents checked against the submissions); API calls run under catch_unwind; callback-count budget for non-termination; monitor and release profiles; Miri sample",
+        "level_text": "Generated histories of valid API calls (chaos with payloads 0..2000 and disconnects, bursts of up to 1000 tiny chunks without flush, multi-datagram resends, contiguous length sweeps 0..1503 for vital/non-vital/connless in all three variants, disconnect from every state with every reason length 0..127) on the real endpoints; each emitted datagram is checked for size, parseability without warnings with the true token mode, chunk count and bit-identical chunks; refusals must leave the state fingerprint unchanged and the history continues.",
+        "level_note": "Validity of a call is taken from the API's own assertions; a TooLongData refusal is accepted for payloads >= 1024 bytes. Coverage is what the generators produce; counters in the evidence show which branches (compressed/uncompressed, refusals, resends) were seen.",
     },
 }
